@@ -234,7 +234,11 @@ func c02Methods(c *run.Ctx) {
 	n := c.N(1000, 15000)
 	for i := 0; i < n && !c.TooMany(); i++ {
 		r := c.Rand(4000000 + i)
-		root, zr, err := zoo.NewRoot()
+		root, zr, late, err := zoo.NewRootLate()
+		lateReg := i%5 == 3
+		if err == nil && !lateReg {
+			err = late()
+		}
 		if err != nil {
 			c.Violation("c02-zoo-schema", map[string]interface{}{"error": err.Error()})
 			return
@@ -249,7 +253,7 @@ func c02Methods(c *run.Ctx) {
 		sval := func() string {
 			return []string{"", "bob", "with space", "quote\"d", "back\\slash", "üñí", "😀", "new\nline", "tab\t"}[r.Intn(9)]
 		}
-		kind := r.Intn(8)
+		kind := r.Intn(9)
 		var field, op string
 		var args []argSpec
 		var expect func(a map[string]interface{}) interface{}
@@ -294,6 +298,10 @@ func c02Methods(c *run.Ctx) {
 			expect = func(a map[string]interface{}) interface{} {
 				return zr.Mutation.FindTrack(a["title"].(string), a["artist"].(string), a["album"].(string), a["year"].(int))
 			}
+		case 8:
+			field, op = "sub", "mutation"
+			args = []argSpec{{name: "a", typ: "Int", val: ival() % 100000}, {name: "b", typ: "Int", val: ival() % 100000}}
+			expect = func(a map[string]interface{}) interface{} { return zr.Mutation.Sub(a["b"].(int), a["a"].(int)) }
 		default:
 			field, op = "renamed", "mutation"
 			expect = func(a map[string]interface{}) interface{} { return zr.Mutation.OtherName() }
@@ -358,6 +366,16 @@ func c02Methods(c *run.Ctx) {
 		text += sub + " }"
 		want := ref.Canon(expect(eff))
 		var res map[string]interface{}
+		if lateReg {
+			// the application registers its fields only after the root has answered a first request for the very field
+			// (whatever that request got): from the registration on the Go name and parameter order it states are in force
+			run.Protect(func() { _ = root.ResolveString(text, "", copyVars(vars)) })
+			if lerr := late(); lerr != nil {
+				c.Violation("c02-zoo-schema", map[string]interface{}{"error": "late registration: " + lerr.Error()})
+				continue
+			}
+			c.Count("method_calls_after_late_registration", 1)
+		}
 		pv, _ := run.Protect(func() {
 			if i%2 == 0 {
 				res = root.ResolveString(text, "", copyVars(vars))
@@ -376,7 +394,7 @@ func c02Methods(c *run.Ctx) {
 		data, _ := res["data"].(map[string]interface{})
 		got := ref.Canon(data["r"])
 		if pv != nil || res["errors"] != nil || !ref.Equal(got, want) {
-			c.Violation("c02-method-vs-direct-call", map[string]interface{}{"document": text, "vars": fmt.Sprintf("%#v", vars), "effective_arguments": fmt.Sprint(eff),
+			c.Violation("method-vs-direct-call", map[string]interface{}{"document": text, "vars": fmt.Sprintf("%#v", vars), "effective_arguments": fmt.Sprint(eff),
 				"direct_go_call": ref.Render(want), "resolved": ref.Render(got), "errors": fmt.Sprint(res["errors"]), "panic": fmt.Sprint(pv)})
 		}
 	}
